@@ -323,16 +323,16 @@ func init() {
 		ns := c.freshLike("sorted", s).(Sl)
 		ns.Off, ns.Len, ns.Nil = s.Off, s.Len, s.Nil
 		// every new element is one of the old elements (and vice versa): permutation witness
-		perm := c.fresh("perm", arrSort(SInt, SInt))
-		inv := c.fresh("perminv", arrSort(SInt, SInt))
-		c.assumeHere(tForall([][2]string{{"i!p", SInt}}, tImp(tAnd(tLe("0", "i!p"), tLt("i!p", s.Len)),
-			tAnd(tLe("0", tSel(perm, "i!p")), tLt(tSel(perm, "i!p"), s.Len), tEq(tSel(inv, tSel(perm, "i!p")), "i!p"))), tSel(perm, "i!p")))
-		c.assumeHere(tForall([][2]string{{"i!p", SInt}}, tImp(tAnd(tLe("0", "i!p"), tLt("i!p", s.Len)),
-			tAnd(tLe("0", tSel(inv, "i!p")), tLt(tSel(inv, "i!p"), s.Len), tEq(tSel(perm, tSel(inv, "i!p")), "i!p"))), tSel(inv, "i!p")))
+		perm, inv := permWitness(c, s.Len)
 		la, lb := leaves(ns.Arr), leaves(s.Arr)
 		for i := range la {
 			c.assumeHere(tForall([][2]string{{"i!p", SInt}}, tImp(tAnd(tLe("0", "i!p"), tLt("i!p", s.Len)),
 				tEq(tSel(la[i], tAdd(s.Off, "i!p")), tSel(lb[i], tAdd(s.Off, tSel(perm, "i!p"))))), tSel(la[i], tAdd(s.Off, "i!p"))))
+		}
+		// the same fact read from the old slice (a consequence; gives the solver the new position of an old element)
+		for i := range la {
+			c.assumeHere(tForall([][2]string{{"i!p", SInt}}, tImp(tAnd(tLe("0", "i!p"), tLt("i!p", s.Len)),
+				tEq(tSel(lb[i], tAdd(s.Off, "i!p")), tSel(la[i], tAdd(s.Off, tSel(inv, "i!p"))))), tSel(lb[i], tAdd(s.Off, "i!p"))))
 		}
 		st1.ghost["perm"] = Sc{perm, arrSort(SInt, SInt)}
 		st1.ghost["perminv"] = Sc{inv, arrSort(SInt, SInt)}
@@ -352,15 +352,14 @@ func init() {
 		ns := c.freshLike("sortedints", s).(Sl)
 		ns.Off, ns.Len, ns.Nil = s.Off, s.Len, s.Nil
 		na, oa := ns.Arr.(Sc).T, s.Arr.(Sc).T
-		perm := c.fresh("perm", arrSort(SInt, SInt))
-		inv := c.fresh("perminv", arrSort(SInt, SInt))
+		perm, inv := permWitness(c, s.Len)
 		c.assumeHere(tForall([][2]string{{"i!p", SInt}}, tImp(tAnd(tLe("0", "i!p"), tLt("i!p", s.Len)),
-			tAnd(tLe("0", tSel(perm, "i!p")), tLt(tSel(perm, "i!p"), s.Len), tEq(tSel(inv, tSel(perm, "i!p")), "i!p"),
-				tEq(tSel(na, tAdd(s.Off, "i!p")), tSel(oa, tAdd(s.Off, tSel(perm, "i!p")))))), tSel(na, tAdd(s.Off, "i!p"))))
-		c.assumeHere(tForall([][2]string{{"i!p", SInt}}, tImp(tAnd(tLe("0", "i!p"), tLt("i!p", s.Len)),
-			tAnd(tLe("0", tSel(inv, "i!p")), tLt(tSel(inv, "i!p"), s.Len), tEq(tSel(perm, tSel(inv, "i!p")), "i!p"))), tSel(inv, "i!p")))
+			tEq(tSel(na, tAdd(s.Off, "i!p")), tSel(oa, tAdd(s.Off, tSel(perm, "i!p"))))), tSel(na, tAdd(s.Off, "i!p"))))
 		c.assumeHere(tForall([][2]string{{"j!a", SInt}, {"j!b", SInt}}, tImp(tAnd(tLe("0", "j!a"), tLt("j!a", "j!b"), tLt("j!b", s.Len)),
 			tLe(tSel(na, tAdd(s.Off, "j!a")), tSel(na, tAdd(s.Off, "j!b"))))))
+		// the same fact read from the old slice (a consequence; gives the solver the new position of an old element)
+		c.assumeHere(tForall([][2]string{{"i!p", SInt}}, tImp(tAnd(tLe("0", "i!p"), tLt("i!p", s.Len)),
+			tEq(tSel(oa, tAdd(s.Off, "i!p")), tSel(na, tAdd(s.Off, tSel(inv, "i!p"))))), tSel(oa, tAdd(s.Off, "i!p"))))
 		return Tup{}, x.assign(n.Args[0], ns, st1)
 	})
 	reg("sort.Strings", "sorts the string slice in place: a permutation of the old contents (the order itself is not modelled)", func(x *Exec, n *ast.CallExpr, recv ast.Expr, st *State) (Val, *State) {
@@ -370,13 +369,9 @@ func init() {
 		ns := c.freshLike("sortedstrs", s).(Sl)
 		ns.Off, ns.Len, ns.Nil = s.Off, s.Len, s.Nil
 		na, oa := ns.Arr.(Sc).T, s.Arr.(Sc).T
-		perm := c.fresh("perm", arrSort(SInt, SInt))
-		inv := c.fresh("perminv", arrSort(SInt, SInt))
+		perm, inv := permWitness(c, s.Len)
 		c.assumeHere(tForall([][2]string{{"i!p", SInt}}, tImp(tAnd(tLe("0", "i!p"), tLt("i!p", s.Len)),
-			tAnd(tLe("0", tSel(perm, "i!p")), tLt(tSel(perm, "i!p"), s.Len), tEq(tSel(inv, tSel(perm, "i!p")), "i!p"),
-				tEq(tSel(na, tAdd(s.Off, "i!p")), tSel(oa, tAdd(s.Off, tSel(perm, "i!p")))))), tSel(na, tAdd(s.Off, "i!p"))))
-		c.assumeHere(tForall([][2]string{{"i!p", SInt}}, tImp(tAnd(tLe("0", "i!p"), tLt("i!p", s.Len)),
-			tAnd(tLe("0", tSel(inv, "i!p")), tLt(tSel(inv, "i!p"), s.Len), tEq(tSel(perm, tSel(inv, "i!p")), "i!p"))), tSel(inv, "i!p")))
+			tEq(tSel(na, tAdd(s.Off, "i!p")), tSel(oa, tAdd(s.Off, tSel(perm, "i!p"))))), tSel(na, tAdd(s.Off, "i!p"))))
 		// the same fact read from the old slice (a consequence; gives the solver the new position of an old element)
 		c.assumeHere(tForall([][2]string{{"i!p", SInt}}, tImp(tAnd(tLe("0", "i!p"), tLt("i!p", s.Len)),
 			tEq(tSel(oa, tAdd(s.Off, "i!p")), tSel(na, tAdd(s.Off, tSel(inv, "i!p"))))), tSel(oa, tAdd(s.Off, "i!p"))))
@@ -1241,13 +1236,122 @@ func (x *Exec) pureClosure(fl *ast.FuncLit, args []Val, st *State) Val {
 	for kk, v := range c.counts {
 		savedCounts[kk] = v
 	}
-	v, _ := x.eval(rs.Results[0], sub)
+	var v Val
+	if pv, ok := x.pureCallTerm(rs.Results[0], sub); ok {
+		v = pv
+	} else {
+		v, _ = x.eval(rs.Results[0], sub)
+	}
 	// drop obligations and their assumed consequences generated under the bound variables
 	c.obls = c.obls[:nObl]
 	c.facts = c.facts[:nFacts]
 	c.counts = savedCounts
 	c.notes = append(c.notes, "closure body evaluated as a pure expression (index obligations inside it are discharged by the extern's own range guarantee): "+c.posOf(fl))
 	return v
+}
+
+// permWitness introduces a permutation of [0,n) and its inverse as total
+// bijections on the integers (the identity outside the range would do): the
+// inverse laws are unconditional, so that the terms perm[inv[perm[..]]] an
+// instantiation creates fall into existing equivalence classes and e-matching
+// terminates.
+func permWitness(c *Ctx, n string) (string, string) {
+	perm := c.fresh("perm", arrSort(SInt, SInt))
+	inv := c.fresh("perminv", arrSort(SInt, SInt))
+	in := func(t string) string { return tAnd(tLe("0", t), tLt(t, n)) }
+	c.assumeHere(tForall([][2]string{{"i!p", SInt}}, tAnd(tEq(tSel(inv, tSel(perm, "i!p")), "i!p"), tEq(in("i!p"), in(tSel(perm, "i!p")))), tSel(perm, "i!p")))
+	c.assumeHere(tForall([][2]string{{"i!p", SInt}}, tAnd(tEq(tSel(perm, tSel(inv, "i!p")), "i!p"), tEq(in("i!p"), in(tSel(inv, "i!p")))), tSel(inv, "i!p")))
+	return perm, inv
+}
+
+// pureCallTerm evaluates a call of a contract-less helper of the module whose
+// body is a chain of `if c { return e }` statements followed by `return e` as
+// one conditional term over the argument values. Ordinary inlining merges the
+// return paths through fresh constants, which cannot stand under the
+// quantifier of a closure argument (sort.Slice's less).
+func (x *Exec) pureCallTerm(e ast.Expr, st *State) (Val, bool) {
+	n, ok := ast.Unparen(e).(*ast.CallExpr)
+	if !ok {
+		return nil, false
+	}
+	id, ok := ast.Unparen(n.Fun).(*ast.Ident)
+	if !ok {
+		return nil, false
+	}
+	callee, _ := x.info.Uses[id].(*types.Func)
+	if callee == nil {
+		return nil, false
+	}
+	c := x.c
+	qn := c.eng.qualName(callee)
+	if c.eng.contracts[qn] != nil {
+		return nil, false
+	}
+	fd := c.eng.funcDecl(callee)
+	if fd == nil || fd.Body == nil {
+		return nil, false
+	}
+	sig := callee.Type().(*types.Signature)
+	if sig.Recv() != nil || sig.Results().Len() != 1 || sig.Variadic() || len(n.Args) != sig.Params().Len() {
+		return nil, false
+	}
+	// shape check first: nothing is evaluated unless the whole body fits
+	var shape func(list []ast.Stmt) bool
+	shape = func(list []ast.Stmt) bool {
+		if len(list) == 0 {
+			return false
+		}
+		switch s := list[0].(type) {
+		case *ast.ReturnStmt:
+			return len(s.Results) == 1 && len(list) == 1
+		case *ast.IfStmt:
+			if s.Init != nil || s.Else != nil || len(s.Body.List) != 1 {
+				return false
+			}
+			r, ok := s.Body.List[0].(*ast.ReturnStmt)
+			return ok && len(r.Results) == 1 && shape(list[1:])
+		}
+		return false
+	}
+	if !shape(fd.Body.List) {
+		return nil, false
+	}
+	args, st2 := x.evalArgs(n, sig, st)
+	if st2 == nil {
+		return nil, false
+	}
+	calleePkg := c.eng.pkgOf(callee)
+	c.inlined[qn] = true
+	sub := &Exec{c: c, pkg: calleePkg, info: calleePkg.info, contract: nil, sig: sig, loopOrd: new(int), depth: x.depth + 1, entry: x.entry}
+	bst := st2.clone()
+	for i := 0; i < sig.Params().Len(); i++ {
+		bst.vars[sig.Params().At(i)] = args[i]
+	}
+	var fold func(list []ast.Stmt) (Sc, bool)
+	fold = func(list []ast.Stmt) (Sc, bool) {
+		switch s := list[0].(type) {
+		case *ast.ReturnStmt:
+			v, _ := sub.eval(s.Results[0], bst)
+			sc, ok := v.(Sc)
+			return sc, ok
+		case *ast.IfStmt:
+			cv, _ := sub.eval(s.Cond, bst)
+			tv, _ := sub.eval(s.Body.List[0].(*ast.ReturnStmt).Results[0], bst)
+			rest, ok := fold(list[1:])
+			csc, ok1 := cv.(Sc)
+			tsc, ok2 := tv.(Sc)
+			if !ok || !ok1 || !ok2 {
+				return Sc{}, false
+			}
+			return Sc{tIte(csc.T, tsc.T, rest.T), rest.S}, true
+		}
+		return Sc{}, false
+	}
+	r, ok := fold(fd.Body.List)
+	if !ok {
+		return nil, false
+	}
+	return r, true
 }
 
 // invalidateScanViews replaces the array of every slice that still refers to a
